@@ -256,7 +256,8 @@ class EnumRNG:
         if n == 0:
             raise ValueError("a cannot be empty unless no samples are taken")
         if replace:
-            raise RNGMachineryError("choice(replace=True, size) not supported")
+            # with replacement: size independent uniform picks
+            return arr[[self._decide("choice", [1.0 / n] * n) for _ in range(size)]]
         if size > n:
             raise ValueError("Cannot take a larger sample than population when replace is False")
         # the order of the returned sample is irrelevant to every caller in phyclone (used as a set of
